@@ -201,7 +201,7 @@ func init() {
 				}
 				return jobs
 			},
-			Rule:   "the breadth-first search of C16 (all 27 command kinds, depth 3 / 4 from the empty database, depth 2 / 3 from two populated states) executed on BOTH real Go backends - SqliteStoreWorker on SQLite and PostgresStoreWorker on a driver that translates the Postgres dialect to SQLite - from identical states; on every transition: error on one backend only, row counts, returned records, sort order and the resulting five tables (sort ids by rank) are compared between the backends and with the reference model; distinct = distinct reached database states",
+			Rule:   "the breadth-first search of C16 (all 27 command kinds, depth 3 / 4 from the empty database, depth 2 / 3 from two populated states) executed on BOTH real Go backends - SqliteStoreWorker on SQLite and PostgresStoreWorker on a driver that translates the Postgres dialect to SQLite - from identical states, plus every job's first transaction with every mutating transaction as ONE batch in both orders on both backends; on every transition: error on one backend only, row counts, returned records, sort order and the resulting five tables (sort ids by rank) are compared between the backends and with the reference model; distinct = distinct reached database states",
 			Assume: []string{"TRUSTED: the dialect translation of pgshim ($n, casts, @>, DISTINCT ON, SERIAL) - real PostgreSQL type coercion, collation, LIKE case-sensitivity and MVCC with several workers are NOT executed (no server in the sandbox)", "documented dialect differences normalised: JSON text formatting, sort id gaps, row choice where neither statement orders it"},
 			QuickS: 150, ThoroughS: 1800,
 		}
